@@ -1,14 +1,22 @@
 """C18 - a codemod acts on what its own detector reports, and the result is clean.
 
-For every find-and-fix codemod that detects with a semgrep rule of its own: the vendored seeds under the Variants.tla
-feature vectors (alias / nesting / layout variants; multiplicity 1, because duplicating a snippet re-binds its names,
-which is one of the shapes a codemod may decline).  Each project is run for real and then once more with --dry-run:
-the findings the detector handed to each file step are in the trace of the first run (flagged before) and of the second
-(flagged after).  Compare events: every location flagged before lies in a region the run rewrote (or the file is
-reported failed); nothing flagged after lies in a region the run rewrote.  Trace_Run validates all traces.
+For every find-and-fix codemod that detects with a semgrep rule of its own:
+
+(1) the vendored seeds under the Variants.tla feature vectors (alias / nesting / layout variants, and the touched
+    statement written twice on one line: several sites of one rule on the same line; multiplicity 1, because
+    duplicating a snippet re-binds its names, which is one of the shapes a codemod may decline);
+(2) runs of TWO rule-detected codemods over files holding a site of each, the earlier one moving the lines of the
+    later one's site (the detector of the later codemod has to report on the file as it is by then).
+
+Each project is run for real and then once more with --dry-run.  The findings the detector handed to each
+(codemod, file) step are in the trace of the first run (flagged before: judged against the text that step read and the
+text it left) and of the second (flagged after).  Compare events: every location flagged before lies in a region the
+step rewrote (or the file is reported failed); nothing flagged after lies in a line the codemod itself wrote.
+Trace_Run validates all traces.
 """
 from __future__ import annotations
 
+import difflib
 import json
 import os
 from pathlib import Path
@@ -17,6 +25,7 @@ from .. import progspace, project
 from ..common import Check
 
 LEVEL = "exploration"
+RULE = ("cases = (rule-detected codemod, pinned seed, feature vector incl. two sites on one line) programs and two-codemod runs over concatenated seeds, each run for real and re-detected with --dry-run; non-trivial when the codemod's own rule flags at least one location; distinct = distinct (codemod, seed, vector) / (queue, file)")
 PINS = Path(__file__).resolve().parent.parent.parent / "corpus" / "c18_pins.json"
 
 
@@ -27,55 +36,134 @@ def rule_detected_codemods() -> list[str]:
     return sorted(c.id for c in load_registered_codemods().codemods if c.origin == "pixee" and isinstance(c.detector, SemgrepRuleDetector))
 
 
-def _raw_file_ends(step: dict) -> dict:
+def _file_ends(step: dict) -> dict:
+    """(codemod, rel) -> last FileEnd event of that pair"""
     out = {}
     for e in step.get("events", []):
         if e["ev"] == "FileEnd":
-            out.setdefault(e["f"], []).append(e)
+            out[(e.get("c"), e["f"])] = e
     return out
+
+
+def _introduced(pre: str, post: str) -> set[str]:
+    a, b = pre.split("\n"), post.split("\n")
+    out = set()
+    for tag, _i1, _i2, j1, j2 in difflib.SequenceMatcher(a=a, b=b, autojunk=False).get_opcodes():
+        if tag in ("replace", "insert"):
+            out.update(x for x in b[j1:j2] if x.strip())
+    return out
+
+
+def judge_file(first: dict, second: dict, cid: str, rel: str, initial: str):
+    """(flagged, untouched, still) for one (codemod, file) of a run + dry re-run."""
+    contents = first.get("contents", {})
+    e1 = _file_ends(first).get((cid, rel)) or {}
+    pre = contents.get(e1.get("pre"), initial)
+    post = contents.get(e1.get("post"), pre)
+    touched_old, _ = project.changed_orig_lines(pre, post)
+    failed = bool(e1.get("failures"))
+    flagged = [loc for res in (e1.get("results") or []) for loc in res["locs"]]
+    untouched = [loc for loc in flagged if not failed and not (set(range(loc[0], loc[2] + 1)) & touched_old)]
+    final = first["after"].get(rel, initial)
+    touched_new, _ = project.changed_orig_lines(final, initial)  # lines of the final text that differ from the initial one
+    wrote = _introduced(pre, post)
+    final_lines = final.split("\n")
+    e2 = _file_ends(second).get((cid, rel)) or {}
+    flagged_after = [loc for res in (e2.get("results") or []) for loc in res["locs"]]
+    still = [loc for loc in flagged_after
+             if any(ln in touched_new and 0 < ln <= len(final_lines) and final_lines[ln - 1] in wrote for ln in range(loc[0], loc[2] + 1))]
+    return flagged, untouched, still
+
+
+def _pair_scenarios(chk: Check, cids: list[str], pins: set) -> list[dict]:
+    """Two rule-detected codemods in one invocation over files holding a (pinned) seed of each; the first codemod of
+    the queue is one whose fix changes the number of lines."""
+    from .. import pyoracle, seeds
+
+    by = seeds.by_codemod()
+    pinned = {}
+    for cid in cids:
+        cands = sorted((s for s in by.get(cid, []) if (cid, s.key) in pins and pyoracle.compiles(s.input)), key=lambda s: (len(s.input), s.key))
+        if cands:
+            pinned[cid] = cands
+    shifting = [cid for cid in sorted(pinned) if any(len(s.expected.split("\n")) != len(s.input.split("\n")) for s in pinned[cid][:3])]
+    if not shifting:
+        return []
+    scenarios = []
+    per = chk.pick(2, 6)
+    for i, k2 in enumerate(sorted(pinned)):
+        for off in range(chk.pick(1, 3)):
+            k1 = shifting[(i + off) % len(shifting)]
+            if k1 == k2:
+                k1 = shifting[(i + off + 1) % len(shifting)]
+            if k1 == k2:
+                continue
+            a_seeds = [s for s in pinned[k1][:3] if len(s.expected.split("\n")) != len(s.input.split("\n"))][:1]
+            files, metas = {}, {}
+            n = 0
+            for sa in a_seeds:
+                for sb in pinned[k2][:per]:
+                    for order, text in (("ab", sa.input.rstrip("\n") + "\n\n" + sb.input), ("ba", sb.input.rstrip("\n") + "\n\n" + sa.input)):
+                        if not pyoracle.compiles(text):
+                            continue
+                        rel = f"m{n:03d}.py"
+                        n += 1
+                        files[rel] = text
+                        metas[rel] = {"seeds": {k1: sa.key, k2: sb.key}, "order": order}
+            if not files:
+                continue
+            for queue in ((k1, k2), (k2, k1)):
+                argv = ["{dir}", "--output", "{out}", "--codemod-include", ",".join(queue)]
+                scenarios.append({"id": f"C18-pair{len(scenarios)}-{queue[0].split('/')[-1]}>{queue[1].split('/')[-1]}", "files": files, "_queue": queue, "_metas": metas,
+                                  "steps": [{"argv": argv, "keep_events": True, "keep_after": True, "keep_contents": True}, {"argv": argv + ["--dry-run"], "keep_events": True}]})
+    return scenarios
 
 
 def run(chk: Check) -> None:
     cids = rule_detected_codemods()
-    vectors = [v for v in progspace.enumerate_vectors(chk) if v["mult"] == 1 and v["imp"] == "asis" and v["layout"] != "bom"]
-    scenarios = progspace.build_batches(chk, codemods=set(cids), vectors=vectors, seeds_per_codemod=chk.pick(3, 10), vectors_per_seed=chk.pick(5, 30),
-                                        step_extra={"keep_events": True, "keep_after": True})
+    vectors = [v for v in progspace.enumerate_vectors(chk, with_args=True)
+               if v["mult"] == 1 and v["imp"] == "asis" and v["layout"] != "bom" and v["args"] in ("asis", "same-line-pair")]
+    scenarios = progspace.build_batches(chk, codemods=set(cids), vectors=vectors, seeds_per_codemod=chk.pick(3, 10), vectors_per_seed=chk.pick(6, 30),
+                                        step_extra={"keep_events": True, "keep_after": True, "keep_contents": True})
     for scn in scenarios:
         argv = scn["steps"][0]["argv"]
         scn["steps"].append({"argv": argv + ["--dry-run"], "keep_events": True})
     from .. import runner, tracecheck
 
-    results = runner.run_many(scenarios)
     pins = set(tuple(x) for x in json.loads(PINS.read_text())["seeds"]) if PINS.exists() else set()
+    pinning = os.environ.get("VERIF_PIN") == "1"
+    pairs = [] if pinning else _pair_scenarios(chk, cids, pins)
+    results = runner.run_many(scenarios + pairs)
     base_ok: dict[tuple, bool] = {}
-    verdict_rows = []
+    rows = []
     traces = []
     for scn, r in zip(scenarios, results):
         first, second = r["steps"]
-        ev1, ev2 = _raw_file_ends(first), _raw_file_ends(second)
-        untouched_total, still_total = [], []
         for rel, meta in scn["_metas"].items():
-            before_text = scn["files"][rel]
-            after_text = first["after"].get(rel, before_text)
-            touched_old, _ = project.changed_orig_lines(before_text, after_text)
-            touched_new, _ = project.changed_orig_lines(after_text, before_text)  # lines of the NEW text that differ
-            e1 = (ev1.get(rel) or [{}])[-1]
-            failed = bool(e1.get("failures"))
-            flagged = [loc for res in (e1.get("results") or []) for loc in res["locs"]]
-            untouched = [loc for loc in flagged if not failed and not (set(range(loc[0], loc[2] + 1)) & touched_old)]
-            e2 = (ev2.get(rel) or [{}])[-1]
-            flagged_after = [loc for res in (e2.get("results") or []) for loc in res["locs"]]
-            still = [loc for loc in flagged_after if set(range(loc[0], loc[2] + 1)) & touched_new]
-            is_base = meta["vector"]["wrap"] == "none" and meta["vector"]["layout"] == "lf"
+            flagged, untouched, still = judge_file(first, second, scn["_codemod"], rel, scn["files"][rel])
             key = (scn["_codemod"], meta["seed"])
-            if is_base:
+            if meta["vector"] == progspace.BASE:
                 base_ok[key] = bool(flagged) and not untouched and not still
-            verdict_rows.append((scn, rel, meta, flagged, untouched, still, key))
+            label = f"{meta['seed'].split('|')[-1]}|{progspace.vec_key(meta['vector'])}"
+            rows.append((scn, first, rel, scn["_codemod"], [key], label, f"seed {meta['seed']} varied as {progspace.vec_key(meta['vector'])}", flagged, untouched, still))
             chk.count()
             if flagged:
                 chk.nontrivial((scn["_codemod"], meta["seed"], progspace.vec_key(meta["vector"])))
         traces += [first["trace"], second["trace"]]
-    if os.environ.get("VERIF_PIN") == "1":
+    for scn, r in zip(pairs, results[len(scenarios):]):
+        first, second = r["steps"]
+        q = scn["_queue"]
+        for rel, meta in scn["_metas"].items():
+            for cid in q:
+                flagged, untouched, still = judge_file(first, second, cid, rel, scn["files"][rel])
+                keys = [(c, meta["seeds"][c]) for c in q]
+                label = f"queue={q[0].split('/')[-1]}>{q[1].split('/')[-1]}|{meta['seeds'][q[0]].split('|')[-1]}+{meta['seeds'][q[1]].split('|')[-1]}|{meta['order']}"
+                rows.append((scn, first, rel, cid, keys, label, f"in the run of {q[0]} then {q[1]} over a file holding seeds {meta['seeds']} ({meta['order']})", flagged, untouched, still))
+                chk.count()
+                if flagged:
+                    chk.nontrivial((q, cid, rel, meta["order"], tuple(sorted(meta["seeds"].values()))))
+        traces += [first["trace"], second["trace"]]
+    if pinning:
         ok = sorted(list(k) for k, v in base_ok.items() if v)
         PINS.write_text(json.dumps({"_doc": "(codemod, seed) pairs whose un-varied seed is flagged by the codemod's own rule, rewritten at every flagged location and "
                                     "clean on re-detection (measured at pin time); C18 judges variants of these seeds, others are discarded", "seeds": ok}, indent=1))
@@ -83,22 +171,21 @@ def run(chk: Check) -> None:
         pins = set(tuple(x) for x in ok)
     judged = 0
     per_trace_flags: dict[str, dict] = {}
-    for scn, rel, meta, flagged, untouched, still, key in verdict_rows:
-        if key not in pins:
+    for scn, first, rel, cid, keys, label, descr, flagged, untouched, still in rows:
+        if any(k not in pins for k in keys):
             continue
         judged += 1
-        tid = next(s for s in results if s["id"] == scn["id"])["steps"][0]["trace"]["id"]
-        flags = per_trace_flags.setdefault(tid, {"untouched": False, "still": False})
+        flags = per_trace_flags.setdefault(first["trace"]["id"], {"untouched": False, "still": False})
         if untouched:
             flags["untouched"] = True
-            chk.violation(f"C18|{scn['_codemod']}|{meta['seed'].split('|')[-1]}|{progspace.vec_key(meta['vector'])}|flagged-not-rewritten",
-                          f"{scn['_codemod']} on seed {meta['seed']} varied as {progspace.vec_key(meta['vector'])}: its rule flags {untouched} but the run neither rewrote those lines nor reported the file failed",
-                          {"codemod": scn["_codemod"], "program": scn["files"][rel], "flagged": flagged})
+            chk.violation(f"C18|{cid}|{label}|flagged-not-rewritten",
+                          f"{cid} on {descr}: its rule flags {untouched} but the run neither rewrote those lines nor reported the file failed",
+                          {"codemod": cid, "argv": scn["steps"][0]["argv"], "program": scn["files"][rel], "flagged": flagged})
         if still:
             flags["still"] = True
-            chk.violation(f"C18|{scn['_codemod']}|{meta['seed'].split('|')[-1]}|{progspace.vec_key(meta['vector'])}|still-flagged",
-                          f"{scn['_codemod']} on seed {meta['seed']} varied as {progspace.vec_key(meta['vector'])}: after the run its rule still flags {still} inside the code the run rewrote",
-                          {"codemod": scn["_codemod"], "program": scn["files"][rel]})
+            chk.violation(f"C18|{cid}|{label}|still-flagged",
+                          f"{cid} on {descr}: after the run its rule still flags {still} inside the code the run rewrote",
+                          {"codemod": cid, "argv": scn["steps"][0]["argv"], "program": scn["files"][rel], "after": first["after"].get(rel)})
     for tr in traces:
         f = per_trace_flags.get(tr["id"])
         if f is not None:
@@ -110,13 +197,17 @@ def run(chk: Check) -> None:
     chk.coverage["traces_validated_against_impl"] += len(traces)
     chk.coverage["rule_detected_codemods"] = len(cids)
     chk.coverage["programs_judged"] = judged
-    chk.coverage["programs_discarded_seed_not_pinned"] = len(verdict_rows) - judged
+    chk.coverage["programs_discarded_seed_not_pinned"] = len(rows) - judged
+    chk.coverage["two_codemod_runs"] = len(pairs)
     if scenarios:
         chk.sample({"codemod": scenarios[0]["_codemod"], "variants": [progspace.vec_key(m["vector"]) for m in list(scenarios[0]["_metas"].values())[:8]]})
+    if pairs:
+        chk.sample({"two_codemod_run": pairs[0]["steps"][0]["argv"], "file": list(pairs[0]["files"].values())[0]})
     chk.assumptions += [
         "the detector is the codemod's own semgrep rule as run by codemodder itself (flagged locations are read from the file steps of the trace)",
         "only variants of seeds whose un-varied form is flagged, rewritten and clean at pin time are judged (corpus/c18_pins.json)",
         "multiplicity-2 and local-import variants are left out: they re-bind names, a shape codemods may decline",
+        "two-codemod runs concatenate two pinned seeds of different codemods; both orders of the file and of the queue",
     ]
 
 
